@@ -570,3 +570,62 @@ func ruleC11ReloadArg(cx *Ctx) {
 func rootFieldLoad(v ssa.Value) ssa.Value {
 	return v
 }
+
+// ruleC12LoadReads: the loading reads are counted reads of the entry they find.
+func ruleC12LoadReads(cx *Ctx) {
+	const rule = "C12.loadread"
+	cx.R.Rule(rule, 2, "Get and BulkGet find a present entry either with the counted lookup getNode (whose read hook C12.hook decides on GetIfPresent) or, when they look the table up themselves, consult ExpireAfterRead exactly once per live entry found - a stale entry that is about to be reloaded is still read")
+	for _, spec := range []opSpec{loadOps[0], bulkOps[0]} {
+		r := cx.runOp(rule, spec)
+		if r == nil {
+			continue
+		}
+		a := newAgg(cx, rule, funcName(r.fn), cx.P.Pos(r.fn.Pos()))
+		lookups := 0
+		for _, o := range r.outs {
+			if o.Cut || o.Panic {
+				continue
+			}
+			we, k := flagOf(o, "withExpiration")
+			hits, quiet, counted := 0, 0, 0
+			for _, e := range o.S.trace {
+				if e.Async > 0 {
+					continue
+				}
+				switch e.Kind {
+				case "GetNode":
+					lookups++
+					if isNil, nk := predOf(o, "IsNil("+e.Args[0]+")"); nk && !isNil {
+						if e.Args[len(e.Args)-1] == "quiet" {
+							quiet++
+						} else {
+							counted++
+						}
+					}
+				case "TableGet":
+					lookups++
+					if preState(o, e.Args[0]) == "L" {
+						hits++
+					}
+				}
+			}
+			reads := 0
+			for _, e := range allEvents(o, "Calc") {
+				if e.Async == 0 && e.Args[0] == "ExpireAfterRead" {
+					reads++
+				}
+			}
+			want := hits + quiet
+			if k && !we {
+				want = 0
+			}
+			if hits+quiet+counted > 0 && (k || hits+quiet == 0) {
+				a.check(spec.name+": a found entry is read", reads == want, "every live entry found by a quiet or direct lookup consults ExpireAfterRead once (entries found by getNode are covered there)", fmt.Sprintf("%d hook call(s) for %d uncounted hit(s)", reads, hits+quiet), o)
+			}
+		}
+		if lookups == 0 {
+			cx.R.Violate(rule, funcName(r.fn), "lookup", cx.P.Pos(r.fn.Pos()), "NOT SATISFIED: no lookup of the key found in "+spec.name)
+		}
+		a.flush()
+	}
+}
